@@ -63,6 +63,18 @@ STRENGTHEN = {
  "C19-r4m2": "daily and 36-hourly series added to the C19 generator (the regenerated np_track_partitions had already broken a bridge)",
  "C20-r4m2": "an ordinary spectrum with 0, 1 and 2 time records must give finite results for every operation (C20)",
  "C11-r4m2": "stations west of Greenwich ([-180,180) convention) added to C11 (the WW3 writer's format theorem had already broken)",
+ "C05-r5m1": "sector (partial-circle) direction grids stored descending added to C05 (statistics, smoothing, direction bands)",
+ "C07-r5m1": "window operations with BOTH spectral dimensions split into several chunks added to C07",
+ "C07-r5m2": "regrid_spec on dask-backed Datasets with side variables, uniformly and differently chunked, added to C07",
+ "C08-r5m2": "the two-dimensional (griddata) branch of interp_spec is now covered: non-negative, finite, nothing above the highest source frequency (C08)",
+ "C10-r5m1": "nearly monochromatic spectra (width radicand a few ulp either side of zero) added to C10",
+ "C10-r5m2": "very broad peaks (maximum a few parts in 1e8 above its neighbours) added to C10",
+ "C11-r5m1": "datasets whose efth is stored with its dimensions in another order added to C11",
+ "C13-r5m2": "WW3 station longitudes in the 0–360 convention (beyond 180) added to C13",
+ "C17-r5m1": "writer calls that fail half-way (missing directory, invalid format) added to C17: the input must be as before",
+ "C17-r5m2": "chunk-related encodings on the site-less coordinates of the C17 datasets",
+ "C18-r5m1": "hp01 with more swells than the spectrum has added to the operations C18 observes (pristine-process oracle)",
+ "C18-r5m2": "after ds['efth'] = oned() the Dataset accessor must agree with the accessor of efth (C18)",
  "C20-m1": "whole-map timeout in pmap: a hang inside native code is reported as a termination failure and the native sub-check still runs (C20)",
 }
 MANUAL_LATER = {  # re-runs done directly with tools/seeded.py (not in a batch log)
